@@ -305,7 +305,7 @@ def gen_map(rng: random.Random, prof: Profile = None):
             is_prefab=rng.random() < 0.3, cordon_enabled=rng.random() < 0.5, map_version=rng.randint(0, 500),
             show_grid=rng.random() < 0.5, show_3d_grid=rng.random() < 0.5, snap_grid=rng.random() < 0.5,
             show_logic_grid=rng.random() < 0.5, grid_spacing=rng.choice([64, 1, 128, 3]),
-            active_cam=rng.choice([-1, 0, 1, 2, 7]), quickhide_count=rng.choice([0, 0, 3, -2]),
+            active_cam=rng.choice([-1, 0, 1, 2, 7]), quickhide_count=rng.choice([0, 0, 1, 3, -2]),
         )
     if rng.random() < prof.p_strata:
         kw['strata_inst_visibility'] = rng.choice(list(V.StrataInstanceVisibility))
